@@ -2,6 +2,7 @@ mod backoff;
 mod decoders;
 mod sim;
 mod sim_ps;
+mod sim_rr;
 mod topic;
 mod wire;
 mod util;
@@ -17,6 +18,7 @@ fn main() {
         "backoff" => backoff::main(&args[1..]),
         "topic" => topic::main(&args[1..]),
         "ps" => sim_ps::main(&args[1..]),
+        "rr" => sim_rr::main(&args[1..]),
         "decoders" => decoders::main(&args[1..]),
         "wire" => wire::main(&args[1..]),
         other => {
